@@ -64,11 +64,12 @@ def convSave (p : Pre) (inits : Bool) (n : Nat) (k : Contents) : List Step :=
   if needConv p inits then [Step.isave p.r n k.convIndex] else []
 
 /-- blob upload `POST` (not a mount).  `reached`: the handler got as far as `BlobCreate`; `mono`: a digest was given
-(monolithic upload); `had`: a blob of that digest existed; `ok`: the digest verified -/
+(monolithic upload); `had`: a blob of that digest existed (then `blobCreate` only refreshes its age: `touch`);
+`ok`: the digest verified -/
 def uploadPost (p : Pre) (k : Contents) (reached mono had haveAlgDir ok : Bool) (a h : Nat) : List Step :=
   if !reached then [] else
   ensureRepo p 0 k ++
-  (if mono && had then [] else
+  (if mono && had then [Step.touch p.r a h] else
     openUpload p.r p.U 1 ++
     (if mono then writeBody p.r 1 k.body ++ (if ok then [Step.commit p.r 1 a h (!haveAlgDir)] else [Step.cancel p.r 1]) else []))
 
@@ -85,16 +86,17 @@ def uploadCancel (p : Pre) (accepted : Bool) (nu : Nat) : List Step := if accept
 
 def blobDelete (p : Pre) (accepted : Bool) (a h : Nat) : List Step := if accepted then [Step.rm (.blob p.r a h)] else []
 
-/-- the referrers response of a subject: its blob (unless a blob of that digest exists), then the index entry -/
+/-- the referrers response of a subject: its blob (a blob of that digest that exists is only touched: `blobCreate`
+refreshes its age), then the index entry -/
 def respSave (p : Pre) (k : Contents) (haveUploads rhad haveAlgDir : Bool) (nu n ra rh : Nat) (idx : Bytes) : List Step :=
-  (if rhad then [] else blobPush p.r haveUploads haveAlgDir nu ra rh k.resp) ++ [Step.isave p.r n idx]
+  (if rhad then [Step.touch p.r ra rh] else blobPush p.r haveUploads haveAlgDir nu ra rh k.resp) ++ [Step.isave p.r n idx]
 
 /-- manifest `PUT` (accepted): the manifest blob (content first), the index load (converted annotation), the index
 entry; with a subject: the referrers response blob and a *second* index save -/
 def manifestPut (p : Pre) (k : Contents) (mhad mAlgDir : Bool) (ma mh : Nat) (subj rhad rAlgDir : Bool) (ra rh : Nat) : List Step :=
   let haveUp := p.U
   ensureRepo p 0 k ++
-  (if mhad then [] else blobPush p.r haveUp mAlgDir 1 ma mh k.body) ++
+  (if mhad then [Step.touch p.r ma mh] else blobPush p.r haveUp mAlgDir 1 ma mh k.body) ++
   convSave p true 2 k ++
   [Step.isave p.r 3 k.index1] ++
   (if subj then respSave p k (haveUp || !mhad) rhad (rAlgDir || (!mhad && ma == ra)) 4 5 ra rh k.index2 else [])
